@@ -26,6 +26,10 @@ ASSUMPTIONS = ["contracts of WCSHelper.sky2pix_ellipse and "
                "fitting.elliptical_gaussian (units.py)"]
 
 MUTANTS = [
+    ("axes sorted into (major, minor) without rotating the angle",
+     "AegeanTools/AeRes.py",
+     'src.a/3600,\n                                                          src.b/3600, src.pa)',
+     'max(src.a, src.b)/3600,\n                                                          min(src.a, src.b)/3600, src.pa)', "C14-R1"),
     ("make_model options reordered, positional caller untouched",
      "AegeanTools/AeRes.py",
      "def make_model(sources, shape, wcshelper, mask=False, frac=None, sigma=4):",
